@@ -615,7 +615,7 @@ class Executor:
             ghost["domain"] = it
         for item in spec.inv(S, env, ghost):
             cl = clause(item)
-            self.oblige("%s/entry#%s" % (tag, cl.name), cl.expr, st, "loop-entry", keep=False)
+            self.oblige("%s/entry#%s" % (tag, cl.name), cl.expr, st, "loop-entry", keep=False, by=cl.by)
         # ---- 2. cut: arbitrary iteration  |  exit
         which = self.choice(2, tag)
         self.havoc(env, names, fields, tag)
@@ -678,6 +678,9 @@ class Executor:
                 if not self.decide(c):
                     raise PathEnd()
             variant0 = spec.variant(S, env, ghost) if spec.variant else None
+            # snapshot of the local sequences at the start of the arbitrary iteration: lets a preserved clause cite lemma instances over the
+            # pre-iteration arrays (ghost only; not visible to the program)
+            ghost["start"] = {kk: V.clone(vv) for kk, vv in env.items() if isinstance(vv, Seq)}
             broke = False
             try:
                 self.exec_block(st.body, env)
